@@ -133,11 +133,15 @@ def run(ctx, rep):
     rep.analysed(fk, g)
     dom = Q.dominators(g)
     sp = A.params(fk.node)[1]
-    tests = [n for n in g.live if n.kind == "test" and "pid" in A.src(n.ast)]
+    pv = None
+    for n in A.walk(fk.node):
+        if isinstance(n, ast.Assign) and isinstance(n.targets[0], ast.Name) and A.find_calls(n.value, "os.fork"):
+            pv = n.targets[0].id
+    tests = [n for n in g.live if n.kind == "test" and pv and pv in A.names_loaded(n.ast)]
     okp = okc = False
     if tests:
         t = tests[0]
-        child_edge = "true" if A.src(t.ast).replace(" ", "") in ("pid==0", "0==pid", "notpid") else "false"
+        child_edge = "true" if A.src(t.ast).replace(" ", "") in ("%s==0" % pv, "0==%s" % pv) else "false"
         par = Q.reach([s for s, l in t.succ if l != child_edge and l != "exc"], labels=("next", "true", "false"))
         chi = Q.reach([s for s, l in t.succ if l == child_edge], labels=("next", "true", "false"))
         pc = [n for n in par if n.ast is not None and n.kind == "stmt" and A.find_calls(n.ast, "%s.close" % sp)]
